@@ -814,7 +814,8 @@ Example type_member_demotes_counterexample :
 Proof. vm_compute. split; reflexivity. Qed.
 
 (* [yaml_side_ok] (not produced by Parse either): an adjustment whose `skip` is an empty Go map
-   ([YamlLegProofs.p_skip0]) changes the signed matrix through YAML only; a disabled cache with a
+   ([YamlLegProofs.p_skip0]) used to change the signed matrix through YAML only; since the fix of finding F21
+   (a skip that means "skip" is written by both marshallers) it verifies on both legs; a disabled cache with a
    colliding extra field ([p_cclash]) loses the command step through YAML only; a float whose two
    tokens disagree inside a plugin configuration changes the signed plugins through YAML only. *)
 Definition p_plugin_float : pipeline :=
@@ -822,7 +823,7 @@ Definition p_plugin_float : pipeline :=
                               [] None None None [])] None [] false.
 Example yaml_side_signature_counterexamples :
   (sp_check_p reparse_json true true [] p_skip0 = Some (true, 1, 1) /\
-   sp_check_p reparse_yaml true true [] p_skip0 = Some (false, 1, 1)) /\
+   sp_check_p reparse_yaml true true [] p_skip0 = Some (true, 1, 1)) /\
   (sp_check_p reparse_json true true [] p_cclash = Some (true, 1, 1) /\
    sp_check_p reparse_yaml true true [] p_cclash = Some (true, 0, 1)) /\
   (sp_check_p reparse_json true true [] p_plugin_float = Some (true, 1, 1) /\
